@@ -282,6 +282,7 @@ Qed.
 
 (* ================================================================= passes *)
 Definition pass_wf (E : env) (p : pass) : Prop :=
+  p_failed p = (is_bare (p_repo p) || e_run_fails E (p_repo p)) /\
   match p_scope p with
   | ScopeAll => True
   | ScopeFiles l => forall f, In f l -> in_wd E (p_repo p) f = true
@@ -289,10 +290,11 @@ Definition pass_wf (E : env) (p : pass) : Prop :=
 
 Lemma run_pass_wf E r files : pass_wf E (run_pass E r files).
 Proof.
-  unfold pass_wf, run_pass, scope_of. cbn [p_scope p_repo].
+  unfold pass_wf, run_pass, scope_of. cbn [p_scope p_repo p_failed]. split; [reflexivity |].
   destruct files as [l |]; [| exact I].
-  destruct (filter (in_wd E r) l) as [| x k] eqn:Ef; [exact I |].
-  intros f Hf. rewrite <- Ef in Hf. now apply filter_In in Hf.
+  destruct (filter (keeps E r) l) as [| x k] eqn:Ef; [exact I |].
+  intros f Hf. rewrite <- Ef in Hf. apply filter_In in Hf as [_ Hf]. unfold keeps in Hf.
+  now apply andb_true_iff in Hf as [Hf _].
 Qed.
 
 Lemma passes_of_groups_wf E g : Forall (pass_wf E) (passes_of_groups E g).
@@ -373,8 +375,18 @@ Proof.
   intro H. pose proof (handle_checkpoint_wf E p h) as W.
   apply recorded_inv in H as (ps & st & ps0 & l & f & Ho & Hin & _ & Hs & Hf & Hr & Hq & _).
   rewrite Ho in W. cbn in W. rewrite Forall_forall in W. specialize (W _ Hin).
-  unfold pass_wf in W. rewrite Hs in W. specialize (W _ Hf). rewrite Hr in W.
+  unfold pass_wf in W. destruct W as [_ W]. rewrite Hs in W. specialize (W _ Hf). rewrite Hr in W.
   exists f. split; [exact Hq | split; [exact W |]]. subst q. now apply in_wd_resolve.
+Qed.
+
+(* a repository whose checkpoint pass fails (git status refusing the pathspec, a bare repository, I/O) records nothing *)
+Lemma failed_pass_records_nothing E p h q r : recorded_in E (handle_checkpoint E p h) q r ->
+  is_bare r = false /\ e_run_fails E r = false.
+Proof.
+  intro H. pose proof (handle_checkpoint_wf E p h) as W.
+  apply recorded_inv in H as (ps & st & ps0 & l & f & Ho & Hin & Hfail & _ & _ & Hr & _ & _).
+  rewrite Ho in W. cbn in W. rewrite Forall_forall in W. specialize (W _ Hin).
+  destruct W as [W _]. rewrite Hfail, Hr in W. symmetry in W. now apply orb_false_iff in W.
 Qed.
 
 Lemma lexical_escape E r f :
@@ -407,17 +419,17 @@ Proof.
 Qed.
 
 (* ================================================================= completeness outside the known classes *)
-Lemma scope_of_keeps E r fs f : In f fs -> in_wd E r f = true ->
+Lemma scope_of_keeps E r fs f : In f fs -> keeps E r f = true ->
   exists k, scope_of E r (Some fs) = ScopeFiles k /\ In f k.
 Proof.
   intros Hi Hw. unfold scope_of.
-  assert (Hk : In f (filter (in_wd E r) fs)) by (apply filter_In; now split).
-  destruct (filter (in_wd E r) fs) as [| x k]; [destruct Hk |].
+  assert (Hk : In f (filter (keeps E r) fs)) by (apply filter_In; now split).
+  destruct (filter (keeps E r) fs) as [| x k]; [destruct Hk |].
   exists (x :: k). split; [reflexivity | exact Hk].
 Qed.
 
 Lemma pass_records_in E r fs f q :
-  In f fs -> in_wd E r f = true -> resolve E f = q -> innermost (e_layout E) q = Some r ->
+  In f fs -> keeps E r f = true -> resolve E f = q -> innermost (e_layout E) q = Some r ->
   e_run_fails E r = false ->
   In (r, q) (pass_records E (run_pass E r (Some fs))).
 Proof.
@@ -430,7 +442,7 @@ Proof.
 Qed.
 
 Lemma groups_record E find fs f q r :
-  In f fs -> find f = Some r -> in_wd E r f = true -> resolve E f = q ->
+  In f fs -> find f = Some r -> keeps E r f = true -> resolve E f = q ->
   innermost (e_layout E) q = Some r -> e_allowed E r = true -> e_run_fails E r = false ->
   In (r, q) (flat_map (pass_records E) (passes_of_groups E (group_files find fs))).
 Proof.
@@ -445,14 +457,14 @@ Qed.
 (* the walk of find_repository_for_file agrees with `innermost` when the innermost repository is not a
    submodule and lies inside the workspace boundary *)
 Lemma find_for_file_innermost E bnd f q r :
-  e_stat E f = IsFile q -> resolve E (parent_raw f) = removelast q ->
+  e_stat E f = IsFile q -> canon E (parent_raw f) = Some (removelast q) ->
   q <> [] -> worktree_root_at (e_layout E) q = None ->
   innermost (e_layout E) q = Some r -> is_submodule r = false ->
   match bnd with Some b => prefixb (resolve E b) (r_root r) = true | None => True end ->
   find_for_file E bnd f = Some r.
 Proof.
   intros Hs Hp Hq Hn Hin Hsub Hb.
-  unfold find_for_file, start_dir. rewrite Hs, Hp.
+  unfold find_for_file, start_dir. rewrite Hs. cbv zeta. rewrite Hp.
   rewrite innermost_parent in Hin by assumption. unfold innermost in Hin.
   eapply up_find_agree; [exact Hin | | |].
   - intros d' Hd'. unfold outside. destruct bnd as [b |]; [| reflexivity].
@@ -463,15 +475,16 @@ Proof.
 Qed.
 
 Lemma plain_file_in_wd E f q r :
-  e_stat E f = IsFile q -> innermost (e_layout E) q = Some r -> in_wd E r f = true /\ resolve E f = q.
+  e_stat E f = IsFile q -> innermost (e_layout E) q = Some r -> keeps E r f = true /\ resolve E f = q.
 Proof.
   intros Hs Hin. destruct (innermost_spec _ _ _ Hin) as (_ & Hp & Hb).
-  unfold in_wd, resolve, canon. rewrite Hs. rewrite workdir_nonbare by exact Hb. now split.
+  unfold keeps, in_wd, resolve, canon. rewrite Hs. rewrite workdir_nonbare by exact Hb.
+  rewrite Hp. rewrite orb_true_r. now split.
 Qed.
 
 Lemma complete_file_based E base fl s f q r :
   In s fl -> f = absolutize base s ->
-  e_stat E f = IsFile q -> resolve E (parent_raw f) = removelast q ->
+  e_stat E f = IsFile q -> canon E (parent_raw f) = Some (removelast q) ->
   q <> [] -> worktree_root_at (e_layout E) q = None ->
   innermost (e_layout E) q = Some r -> is_submodule r = false ->
   prefixb (resolve E base) (r_root r) = true ->
@@ -493,7 +506,7 @@ Qed.
 
 Lemma complete_primary E p fl s f q :
   In s fl -> f = absolutize (raw_of_path (workdir p)) s ->
-  in_wd E p f = true -> resolve E f = q -> innermost (e_layout E) q = Some p ->
+  keeps E p f = true -> resolve E f = q -> innermost (e_layout E) q = Some p ->
   e_run_fails E p = false ->
   recorded_in E (primary_mode E p (Some fl)) q p.
 Proof.
@@ -504,7 +517,7 @@ Qed.
 Lemma complete_external E p fl s f q r :
   In s fl -> f = absolutize (raw_of_path (workdir p)) s ->
   in_wd E p f = false ->
-  e_stat E f = IsFile q -> resolve E (parent_raw f) = removelast q ->
+  e_stat E f = IsFile q -> canon E (parent_raw f) = Some (removelast q) ->
   q <> [] -> worktree_root_at (e_layout E) q = None ->
   innermost (e_layout E) q = Some r -> is_submodule r = false ->
   e_allowed E r = true -> e_run_fails E r = false ->
@@ -676,7 +689,7 @@ Lemma ex_complete_hyps :
   let E := w_env (Some w_ws) in
   let base := raw_of_path w_ws in
   let f := absolutize base [111; 47; 105; 47; 120] in
-  e_stat E f = IsFile q_i_x /\ resolve E (parent_raw f) = removelast q_i_x /\ q_i_x <> [] /\
+  e_stat E f = IsFile q_i_x /\ canon E (parent_raw f) = Some (removelast q_i_x) /\ q_i_x <> [] /\
   worktree_root_at (e_layout E) q_i_x = None /\ innermost (e_layout E) q_i_x = Some w_inner /\
   is_submodule w_inner = false /\ prefixb (resolve E base) (r_root w_inner) = true.
 Proof. vm_compute. repeat split; try reflexivity. discriminate. Qed.
